@@ -29,6 +29,7 @@ type GroupWorld struct {
 
 	nodeSeq, podSeq, instSeq int
 	phase, phaseLeft int
+	load  float64 // per-group workload intensity (light / medium / heavy)
 	salt string // stream-key salt: lets a metamorphic pair vary exactly one group
 }
 
@@ -271,7 +272,8 @@ func (g *GroupWorld) bootstrap() {
 	g.phase = s.Intn(5)
 	g.phaseLeft = 1 + s.Intn(8)
 	// initial workload
-	pods := s.Intn(3 * (n + 1))
+	g.load = []float64{0.7, 0.15, 0.4, 1.3}[s.Pick(3, 3, 3, 2)]
+	pods := int(float64(s.Intn(3*(n+1))) * g.load)
 	for k := 0; k < pods; k++ {
 		g.spawnPod(s, false)
 	}
@@ -282,7 +284,7 @@ func (g *GroupWorld) bootstrap() {
 
 // ---- pods --------------------------------------------------------------------
 
-var cpuForms = []string{"100m", "250m", "0.5", "1", "1500m", "2", "0.1", "100.5m", "5e-1", "3", "50m"}
+var cpuForms = []string{"100m", "250m", "0.5", "1", "1500m", "2", "0.1", "100.5m", "5e-1", "3", "50m", "200m", "300m", "0.25"}
 var memForms = []string{"128Mi", "256Mi", "1Gi", "0.5Gi", "1G", "500M", "1e9", "123456789", "2Gi", "1536Mi", "64Mi", "100k"}
 
 func (g *GroupWorld) selectorFor(p *v1.Pod, s *Stream) {
@@ -385,6 +387,14 @@ func (g *GroupWorld) spawnPod(s *Stream, edge bool) *v1.Pod {
 	dur := time.Duration(1+s.Intn(40)) * g.w.cfg.ScanInterval / 2
 	p.Annotations = map[string]string{"sim/duration": dur.String()}
 	g.w.kube.putPod(p, g.name)
+	// batch jobs that never get a node are cancelled after a while, so a saturated group drains again
+	name := p.Name
+	g.w.after(dur/2+time.Duration(1+s.Intn(6))*g.w.cfg.ScanInterval, "pod-cancelled", func() {
+		if cur, ok := g.w.kube.pods[name]; ok && cur.Spec.NodeName == "" {
+			g.w.kube.deletePod(name)
+			g.w.stats.World["pod-cancelled"]++
+		}
+	})
 	return p
 }
 
@@ -583,10 +593,10 @@ func (g *GroupWorld) tick() {
 	if w.cfg.Actors["workload"] {
 		g.phaseLeft--
 		if g.phaseLeft <= 0 {
-			g.phase = s.Intn(5)
+			g.phase = s.Pick(3, 3, 2, 2, 1)
 			g.phaseLeft = 2 + s.Intn(12)
 		}
-		if s.Chance(phaseArrive[g.phase]) && len(g.groupPods()) < 60 {
+		if s.Chance(phaseArrive[g.phase]*g.load) && len(g.groupPods()) < 60 {
 			k := 1 + s.Intn(phaseBurst[g.phase])
 			for j := 0; j < k; j++ {
 				g.spawnPod(s, false)
@@ -677,7 +687,7 @@ var extTaintValues = []string{"", "0", "-5", "abc", "99999999999999999999", "922
 func (g *GroupWorld) operatorAction(s *Stream, prefer string) {
 	w := g.w
 	p := w.prof
-	act := s.Pick(int(p.PCordon*100), int(p.PCordon*60), int(p.PAnnotate*100), int(p.PAnnotate*50), int(p.PForceTaint*60), int(p.PExtTaint*80), 15, 10, 8, int(p.PAsgEdit*100), 8, 6, 5, int(p.PResize*100), int(p.PForceTaint*25))
+	act := s.Pick(int(p.PCordon*100), int(p.PCordon*60), int(p.PAnnotate*100), int(p.PAnnotate*50), int(p.PForceTaint*60), int(p.PExtTaint*80), int(p.PForeignTaint*100), 10, 8, int(p.PAsgEdit*100), 8, 6, 5, int(p.PResize*100), int(p.PForceTaint*25))
 	names := []string{"cordon", "uncordon", "annotate", "unannotate", "force-taint", "ext-taint", "foreign-taint", "remove-taint", "spot-loss", "asg-edit", "node-delete", "relabel", "ext-untaint", "resize", "force-taint-many"}
 	gate := map[string]string{"cordon": "cordon", "uncordon": "cordon", "annotate": "annotate", "unannotate": "annotate", "force-taint": "force-taint", "ext-taint": "ext-taint",
 		"foreign-taint": "foreign-taint", "remove-taint": "foreign-taint", "spot-loss": "spot", "asg-edit": "asg-edit", "node-delete": "node-delete", "relabel": "relabel", "ext-untaint": "ext-taint", "resize": "operator", "force-taint-many": "force-taint"}
